@@ -147,7 +147,12 @@ func baseNextToken(l *Lexer) token.Token {
 		startLine, startColumn := l.Line, l.Column
 		tok = l.NewTokenAt(token.RAW_STRING, l.readRawString(), startLine, startColumn)
 	case 0:
-		tok = l.NewToken(token.EOF, "")
+		if l.position >= len(l.input) {
+			tok = l.NewToken(token.EOF, "")
+		} else {
+			// a NUL byte inside the source is not the end of the input
+			tok = l.NewToken(token.ILLEGAL, string(l.CurrentChar))
+		}
 	default:
 		if isLetter(l.CurrentChar) {
 			// Capture position BEFORE reading the identifier
